@@ -61,13 +61,15 @@ def copySlots (dst : Slots α) (dlo dhi : Nat) (src : Slots α) (slo shi : Nat) 
     some (dst.take dlo ++ (src.drop slo).take m ++ dst.drop (dlo + m))
   else none
 
-/-- `insertOne(a[:hi], idx, x)`: `copy(a[idx+1:], a[idx:]); a[idx] = x` (clobbers `a[hi-1]`) -/
+/-- `insertOne(a[:hi], idx, x)`: `copy(a[idx+1:], a[idx:]); a[idx] = x` (clobbers `a[hi-1]`); each of
+the two statements only if it is present in the source -/
 def insertOne (a : Slots α) (hi : Nat) (idx : Int) (x : Option α) : Option (Slots α) := do
   let d ← toIdx (TreeSlots.insertOneDstLo idx)
   let s ← toIdx (TreeSlots.insertOneSrcLo idx)
   let i ← toIdx idx
-  let b ← copySlots a d hi a s hi
-  if i < hi then setSlot b i x else none
+  let b ← if TreeSlots.insertOneShifts then copySlots a d hi a s hi
+          else (if hi ≤ a.length then some a else none)
+  if TreeSlots.insertOneWrites then (if i < hi then setSlot b i x else none) else some b
 
 /-- `removeOne(a[:hi], idx)`: `copy(a[idx:], a[idx+1:]); a[len(a)-1] = zero`; each of the two
 statements only if it is present in the source -/
@@ -278,7 +280,7 @@ def rotateRightNodes (parent left right : SNode K V C) (idx : Nat) :
   let rkids ← if TreeSlots.rotateRightInsertsChild then insertOne right.kids right.kids.length 0 child else some right.kids
   pure ({ parent with keys := pkeys, vals := pvals },
         { left with keys := lkeys, vals := lvals, kids := lkids, n := bumpIf TreeSlots.rotateRightDecLeft left.n (-1) },
-        { right with keys := rkeys, vals := rvals, kids := rkids, n := right.n + 1 }, child)
+        { right with keys := rkeys, vals := rvals, kids := rkids, n := bumpIf TreeSlots.rotateRightIncRight right.n 1 }, child)
 
 /-- `rotateLeft(left, right)` (`idx` = `idxInParent` of `right`). -/
 def rotateLeftNodes (parent left right : SNode K V C) (idx : Nat) :
@@ -301,8 +303,8 @@ def rotateLeftNodes (parent left right : SNode K V C) (idx : Nat) :
   let ci ← toIdx (TreeSlots.rotateLeftChildIdx left.n)
   let lkids ← setSlot left.kids ci child
   pure ({ parent with keys := pkeys, vals := pvals },
-        { left with keys := lkeys, vals := lvals, kids := lkids, n := left.n + 1 },
-        { right with keys := rkeys, vals := rvals, kids := rkids, n := right.n - 1 }, child)
+        { left with keys := lkeys, vals := lvals, kids := lkids, n := bumpIf TreeSlots.rotateLeftIncLeft left.n 1 },
+        { right with keys := rkeys, vals := rvals, kids := rkids, n := bumpIf TreeSlots.rotateLeftDecRight right.n (-1) }, child)
 
 
 /-! ## node-level histories
@@ -605,6 +607,32 @@ def nOf (h : Heap K V) : Option Nat → Option Int
   | some r => (h.get r).map (·.n)
   | none => some 0
 
+/-- the node a variable of `steal` / `merge` denotes (`none` = nil) -/
+def argNode (xid : Nat) (left right : Option Nat) : Tree.NodeArg → Option Nat
+  | .x => some xid
+  | .left => left
+  | .right => right
+
+/-- the two nodes of the call the generated fact says `steal` / `merge` make, provided it is a call of
+one of the helpers in `fs`; `none`: a nil argument (nil dereference in the helper), or a statement
+list this model cannot follow -/
+def callArgs (call : Option (Tree.Callee × Tree.NodeArg × Tree.NodeArg)) (fs : List Tree.Callee)
+    (xid : Nat) (left right : Option Nat) : Option (Tree.Callee × Nat × Nat) :=
+  match call with
+  | none => none
+  | some (f, a, b) =>
+    if fs.contains f then
+      (argNode xid left right a).bind fun ia => (argNode xid left right b).map fun ib => (f, ia, ib)
+    else none
+
+/-- the rotation `steal` calls in one of its two branches -/
+def rotCall (h : Heap K V) (call : Option (Tree.Callee × Tree.NodeArg × Tree.NodeArg))
+    (xid : Nat) (left right : Option Nat) : Option (Heap K V) :=
+  match callArgs call [.rotateLeft, .rotateRight] xid left right with
+  | some (.rotateLeft, a, b) => rotateLeft h a b
+  | some (.rotateRight, a, b) => rotateRight h a b
+  | _ => none
+
 /-- `steal` -/
 def steal (h : Heap K V) (xid : Nat) : Option (Heap K V × Bool) := do
   let lr ← siblings h xid
@@ -612,14 +640,12 @@ def steal (h : Heap K V) (xid : Nat) : Option (Heap K V × Bool) := do
   let right := lr.2
   let rn ← nOf h right
   if Tree.stealRight right.isSome rn then
-    let r ← right
-    let h ← rotateLeft h xid r
+    let h ← rotCall h Tree.stealRightCall xid left right
     pure (h, true)
   else
     let ln ← nOf h left
     if Tree.stealLeft left.isSome ln then
-      let l ← left
-      let h ← rotateRight h l xid
+      let h ← rotCall h Tree.stealLeftCall xid left right
       pure (h, true)
     else pure (h, false)
 
@@ -632,9 +658,10 @@ def mergeFrom : Nat → Heap K V → Nat → Option (Heap K V)
     let left := lr.1
     let right := lr.2
     let ln ← nOf h left
-    let lrid ← (if Tree.mergeIntoLeft left.isSome ln then left.map (·, xid) else right.map (xid, ·))
-    let lid := lrid.1
-    let rid := lrid.2
+    let lrid ← callArgs (if Tree.mergeIntoLeft left.isSome ln then Tree.mergeLeftCall else Tree.mergeRightCall)
+      [.mergeTwo] xid left right
+    let lid := lrid.2.1
+    let rid := lrid.2.2
     -- mergeTwo(left, right)
     let l ← h.get lid
     let r ← h.get rid
@@ -648,9 +675,12 @@ def mergeFrom : Nat → Heap K V → Nat → Option (Heap K V)
     let p' ← h.get pid
     if Tree.mergeRootCheck pid h.root then
       if Tree.mergeRootEmpty p'.n then
-        let h ← h.step (.setParent lid none) [lid]
-        let h ← h.step (.drop pid) []
-        pure (Heap.event { h with root := lid } "collapse")
+        -- `t.root = left; left.parent = nil`, each only if it is in the source
+        let h ← (if Tree.mergeCollapseClearsParent then h.step (.setParent lid none) [lid] else some h)
+        if Tree.mergeCollapseSetsRoot then
+          let h ← h.step (.drop pid) []
+          pure (Heap.event { h with root := lid } "collapse")
+        else pure h
       else pure h
     else if Tree.mergeCascades p'.n false then
       let hs ← steal h pid
@@ -702,7 +732,9 @@ def delete (cmp : K → K → Int) (h : Heap K V) (k : K) : Option (Heap K V) :=
   let d ← descend cmp k h (h.nodes.length + 1) h.root
   let curr := d.1
   let idx := d.2.1
-  if !d.2.2 then pure h
+  if !d.2.2 then
+    -- `if curr.leaf() { return }`; without the `return` the loop descends into a nil child
+    (if Tree.deleteMissReturnsFirst then pure h else none)
   else
     let h := { h with size := bumpIf Tree.deleteDecSize h.size (-1), gen := bumpIf Tree.deleteBumpsGen h.gen 1 }
     let x ← h.get curr
